@@ -271,6 +271,26 @@ def run_sequence(rec, rng, cid):
             what = "valid"
             if prev is not None and rng.random() < .2:
                 steps, options = copy.deepcopy(prev)    # same again
+            elif prev is not None and rng.random() < .25:
+                # the applied pipeline extended by one more step (same
+                # options), typically after a fit
+                cand = [p_ for p_ in sorted(req) if p_ not in prev[0]
+                        and all(r in prev[0] for r in req[p_])]
+                rng.shuffle(cand)
+                for p_ in cand:
+                    ext = toposort(list(prev[0]) + [p_], req, opt)
+                    if ext[:len(prev[0])] == list(prev[0]):
+                        steps, options = ext, copy.deepcopy(prev[1])
+                        what = "valid (applied pipeline extended)"
+                        rec.event("requests that extend the applied "
+                                  "pipeline")
+                        try:
+                            idnt.fit_model()
+                            hist.append(["fit_model()", "ok"])
+                        except BaseException as e:  # noqa
+                            hist.append(["fit_model()",
+                                         "EXC:" + type(e).__name__])
+                        break
         via_fit = bool(rng.random() < .3)
         if rng.random() < .25:
             try:
@@ -281,6 +301,8 @@ def run_sequence(rec, rng, cid):
         details = bool(not via_fit and rng.random() < .25)
         if details:
             rec.event("requests asking for preprocessing details")
+        applied_before = (copy.deepcopy(idnt.preprocessing),
+                          copy.deepcopy(idnt.preprocessing_options))
         res = issue(idnt, steps, options, via_fit, details)
         hist.append([{"steps": steps, "options": options,
                       "via_fit_model": via_fit, "kind": what,
@@ -312,6 +334,17 @@ def run_sequence(rec, rng, cid):
                 rec.check(not diff, "columns-differ-from-fresh-object",
                           "columns %s differ from a fresh object given the "
                           "same request once" % diff, case)
+                if not via_fit and applied_before != (steps, options):
+                    # a new pipeline was applied: columns of an earlier fit
+                    # belong to other data and must be gone
+                    stale = [c for c in ("fit", "fit residuals", "fit range")
+                             if c in idnt.columns]
+                    rec.event("new pipelines checked for left-over fit "
+                              "columns")
+                    rec.check(not stale, "stale-fit-columns-after-new-"
+                              "pipeline", "columns %s of an earlier fit "
+                              "survive a new preprocessing pipeline" % stale,
+                              case)
                 rec.check(idnt.preprocessing == steps and
                           idnt.preprocessing_options == options,
                           "accepted-request-not-reported",
